@@ -159,6 +159,7 @@ class Interp:
         self.entries = {}                 # inv -> (variant, typed args)
         self.viol = []                    # in-run violations (real mode)
         self.calls_log = []               # every build_file / subbuild call
+        self.signals = {}
         self.raised = []                  # exception objects raised by user code
         self.written = {}                 # path -> last bytes written
         self.last_raw = None
@@ -237,6 +238,11 @@ class Interp:
                     repr((canon(args), canon(kw)))))
             variant = self.variant(spec)
             fr = Frame(inv, fid, path, args, kw, variant, B)
+            # what a function returns and writes depends on its arguments
+            # (as JSON values: 1 and 1.0, or differently ordered keys, are
+            # the same argument - C07 - and a deterministic function in the
+            # sense of the cache does not tell them apart)
+            fr.obs.append(['args', digest(repr((canon(args), canon(kw))))])
             self.enter(fr)
             fn.invs.append(fr.inv)
             body = spec['variants'][variant]
@@ -481,6 +487,16 @@ class Interp:
                 except Exception as e:
                     res.append('!' + type(e).__name__)
             fr.obs.append(['bfmany', prefix, digest(res)])
+        elif op == 'signal':
+            # user-level synchronisation between threads of one build
+            lk = self.signal_lock(st[1])
+            if lk is not None:
+                lk.release()
+        elif op == 'await':
+            lk = self.signal_lock(st[1])
+            if lk is not None:
+                lk.acquire()
+                lk.release()
         elif op == 'nop':
             pass
         else:
@@ -734,6 +750,18 @@ class Interp:
 
     def seq(self):
         return self.sched.seq if self.sched is not None else 0
+
+    def signal_lock(self, name):
+        """An event: a simulated lock that starts out held by nobody's
+        thread; ``signal`` releases it, ``await`` passes through it."""
+        if self.sched is None or self.mode != 'real':
+            return None
+        lk = self.signals.get(name)
+        if lk is None:
+            lk = self.sched.make_lock()
+            lk.owner = 'event'
+            self.signals[name] = lk
+        return lk
 
     def spawn(self, fr, st):
         """Run bodies 'concurrently' on the same builder.
